@@ -5,13 +5,16 @@ from falib import Interner
 from common import chunks
 
 PROP = "C17"
-LEVEL = "other"
-THEOREMS = {"Properties.C17": []}
-LEVEL_TEXT = ("Partial + correspondence: is_empty is modelled as the least fixed point of Aho's marking rules (saturation; independent of rule order by "
-              "construction). pyformlang's verdict is compared with the model for every permutation sample of the rule list, every ordering heuristic "
-              "(optim 0-8), after remove_useless_rules() and on repeated calls. Soundness of the marking w.r.t. the derivation semantics is the theorem "
-              "target (see evidence); completeness (Aho) is not proved - disagreements are investigated with a bounded derivation search.")
-LEVEL_NOTE = "Trusted: Coq kernel; hand-written marking model; Python harness; networkx-based ordering heuristics are exercised, not modelled."
+LEVEL = "proof"
+THEOREMS = {"Properties.C17": ["C17_is_empty", "C17_tree_vs_rewriting", "C17_marks_sound"]}
+LEVEL_TEXT = ("Proof + correspondence: is_empty is modelled as the least fixed point of Aho's marking rules (saturation; independent of rule order by "
+              "construction). A Coq theorem shows, for every rule set in reduced form and every start nonterminal, that the model answers True exactly when "
+              "no terminal word can be rewritten from the start nonterminal with an empty index stack (soundness: a marked pair (A, T) means A derives a "
+              "word on any stack on which all members of T do; completeness: the frontier of any derivation is marked, by induction on its size; tree-shaped "
+              "derivations are proved equivalent to the rewriting semantics). pyformlang's verdict is compared with the model for every permutation sample "
+              "of the rule list, every ordering heuristic (optim 0-8), after remove_useless_rules() and on repeated calls.")
+LEVEL_NOTE = ("Trusted: Coq kernel; hand-written marking model validated by correspondence; Python harness; networkx-based ordering heuristics are exercised, "
+              "not modelled. The intersection with a regular language is compared with a reference product construction (not proved).")
 RULE = ("random reduced-form indexed grammars (1-4 nonterminals, 1-2 indices, <= 10 rules, duplicated rules and several consumption rules per (index, variable) "
         "frequent) x permutations of the rule list (all when <= 4 rules, 6 sampled otherwise) x optim 0..8 x {is_empty, bool, repeated call, remove_useless_rules}")
 EXPLANATION = "Verdicts compared with the saturation model of the marking rules; order independence by permutations and heuristics."
@@ -20,10 +23,27 @@ ASSUMPTIONS = ["nonterminals, indices and terminals are strings (interned to N)"
 TECHNIQUE = "Rocq/Coq model (least fixed point of the marking rules) + differential correspondence over rule orders and heuristics"
 
 
+INTER_REGEXES = ["a", "a*", "(a|b)*", "a b", "$", "", "b (a|b)*", "a|$", "(a b)*", "c*", "a a*"]
+
+
 def generate(ctx):
+    import falib
     n = 250 if ctx.tier == "quick" else 3000
-    return [dict(iglib.rand_chain_ig(ctx.rng) if ctx.rng.random() < 0.3 else iglib.rand_ig(ctx.rng), op="is_empty",
-                 perm_seed=ctx.rng.randrange(10**6)) for _ in range(n)]
+    rng = ctx.rng
+    cases = [dict(iglib.rand_chain_ig(rng) if rng.random() < 0.3 else iglib.rand_ig(rng), op="is_empty",
+                  perm_seed=rng.randrange(10**6)) for _ in range(n)]
+    for _ in range(n // 3):              # intersection with a regular language
+        c = dict(iglib.rand_chain_ig(rng) if rng.random() < 0.4 else iglib.rand_ig(rng, max_nt=3, max_rules=5), op="inter",
+                 operator=rng.random() < 0.3)
+        k = rng.random()
+        if k < 0.3:
+            c["regex"] = rng.choice(INTER_REGEXES)
+        elif k < 0.95:
+            c["fa"] = falib.rand_fa(rng, names="plain", max_states=2, max_syms=2)
+        else:
+            c["other"] = True
+        cases.append(c)
+    return cases
 
 
 def _perms(case):
@@ -40,7 +60,31 @@ def _perms(case):
     return out
 
 
+def _impl_inter(case):
+    import falib
+    from pyformlang.regular_expression import Regex
+    g = iglib.build_ig(case["rules"])
+    out = {}
+    if case.get("other"):
+        try:
+            g.intersection("not an automaton")
+            return {"refused": None}
+        except NotImplementedError:
+            return {"refused": "NotImplementedError"}
+    if "regex" in case:
+        other = Regex(case["regex"])
+        out["fa"] = falib.extract_fa(other.to_epsilon_nfa())
+    else:
+        other = falib.build_fa(case["fa"])
+    res = (g & other) if case.get("operator") else g.intersection(other)
+    out["v"] = [bool(res.is_empty()), bool(res.is_empty())]
+    out["operand_still"] = bool(g.is_empty())
+    return out
+
+
 def impl(case):
+    if case.get("op") == "inter":
+        return _impl_inter(case)
     res = []
     for pi, perm in enumerate(_perms(case)):
         for optim in (range(9) if pi < 2 else [0, 7]):
@@ -56,7 +100,43 @@ def impl(case):
     return {"runs": res}
 
 
+def _check_inter(ctx, c, o):
+    ctx.dist["inter"] += 1
+    ctx.count(1)
+    if "timeout" in o:          # the marking is exponential in the number of nonterminals of the product: slow cases are skipped, not judged
+        ctx.dist["inter:impl-timeout(skipped)"] += 1
+        return
+    if "exc" in o:
+        ctx.fail("intersection-exception", c, {"impl": o})
+        return
+    if c.get("other"):
+        if o.get("refused") != "NotImplementedError":
+            ctx.fail("intersection-accepts-non-automaton", c, {})
+        return
+    fa = o.get("fa") or c["fa"]
+    prod, st = iglib.product_rules(c["rules"], c["start"], fa)
+    try:
+        want = iglib.aho_is_empty(prod, st)
+    except iglib.OracleBudget:
+        ctx.dist["inter:oracle-budget-exceeded(skipped)"] += 1
+        return
+    if len(c["rules"]) >= 3:
+        ctx.nontriv(["inter", c["rules"], c.get("regex"), c.get("fa")])
+    if any(v != want for v in o["v"]):
+        found = iglib.bounded_nonempty(prod, st, depth=3)
+        if want and found:
+            raise RuntimeError("HARNESS: the marking oracle says empty but a bounded search finds a derivation: %r" % (c,))
+        ctx.fail("intersection-verdict", c, {"impl": o["v"], "expected_is_empty": want, "bounded_search_nonempty(depth 3)": found})
+    elif o.get("operand_still") != iglib.aho_is_empty(c["rules"], c["start"]):
+        ctx.fail("intersection-changes-operand", c, {"impl": o})
+
+
 def check_cases(ctx, cases):
+    inter = [c for c in cases if c.get("op") == "inter"]
+    if inter:
+        for c, o in zip(inter, ctx.impl("c17", inter, timeout=6)):
+            _check_inter(ctx, c, o)
+    cases = [c for c in cases if c.get("op") != "inter"]
     obs = ctx.impl("c17", cases, timeout=30)
     parts = chunks(list(range(len(cases))), 16)
     srcs = []
@@ -76,6 +156,8 @@ def check_cases(ctx, cases):
                 ctx.nontriv(c["rules"])
             if i % 31 == 0:
                 ctx.sample({"rules": c["rules"], "model_is_empty": mv})
+            if iglib.aho_is_empty(c["rules"], c["start"]) != mv:
+                raise RuntimeError("HARNESS: the Python marking oracle (used for the intersection clause) disagrees with the proved Coq model on %r" % (c,))
             if "timeout" in o or "exc" in o:
                 ctx.fail("is_empty-exception", c, {"impl": o})
                 continue
@@ -94,3 +176,7 @@ def check_cases(ctx, cases):
 def shrink_candidates(case):
     for i in range(len(case["rules"])):
         yield dict(case, rules=case["rules"][:i] + case["rules"][i + 1:])
+    if "fa" in case:
+        fa = case["fa"]
+        for i in range(len(fa["trans"])):
+            yield dict(case, fa=dict(fa, trans=fa["trans"][:i] + fa["trans"][i + 1:]))
